@@ -134,7 +134,7 @@ def tasks_for(eng, prop):
 
 def run_native(args, stdin_obj=None, timeout=600):
     env = dict(os.environ)
-    env["PYTHONPATH"] = ROOT + os.pathsep + "/repo/src"
+    env["PYTHONPATH"] = ROOT + os.pathsep + os.environ.get("PYVC_REPO_SRC", "/repo/src")
     p = subprocess.run([VENV_PY] + args, input=json.dumps(stdin_obj) if stdin_obj is not None else None,
                        capture_output=True, text=True, timeout=timeout, env=env, cwd=ROOT)
     return p
